@@ -14,10 +14,47 @@ pub mod polling {
     /// opaque: the kernel's interest table lives behind &self (DESIGN 1.4)
     #[verifier::external_body] #[derive(Debug)] pub struct Poller { _p: () }
     #[verifier::external_body] #[derive(Debug)] pub struct Events { _p: () }
+    pub use crate::ext::fd_raw;
+    /// ASSUMED: a BorrowedFd obtained from x.as_fd() designates x's descriptor, and as_raw_fd() returns it
+    pub assume_specification<'a> [<std::os::fd::BorrowedFd<'a> as std::os::fd::AsRawFd>::as_raw_fd] (b: &std::os::fd::BorrowedFd<'a>) -> (r: i32)
+        ensures r as int == fd_raw(b);
+    /// ASSUMED (opaque): HashMap::retain -- only used by the level-trigger emulation for pollers without level support
+    pub assume_specification<K, V, S, A, F> [std::collections::HashMap::<K, V, S, A>::retain] (m: &mut std::collections::HashMap<K, V, S, A>, f: F)
+        where A: std::alloc::Allocator, F: std::ops::FnMut(&K, &mut V) -> bool;
     impl Poller {
+        // The kernel's interest table is not representable (behind &self). What contracts CAN say about it (DESIGN 2.12):
+        //  * may_add / may_modify: may-call side -- add_with_mode / modify_with_mode REQUIRE them; the calloop function
+        //    that owns the call states in its precondition for which arguments they hold;
+        //  * w_added / w_modified / w_deleted: must-call side -- monotone history witnesses ("this call has been made
+        //    and returned Ok"), produced only by the postconditions below.
+        pub uninterp spec fn may_add(&self, fd: int, ev: Event, mode: PollMode) -> bool;
+        pub uninterp spec fn may_modify(&self, fd: int, ev: Event, mode: PollMode) -> bool;
+        pub uninterp spec fn w_added(&self, fd: int, ev: Event, mode: PollMode) -> bool;
+        pub uninterp spec fn w_modified(&self, fd: int, ev: Event, mode: PollMode) -> bool;
+        pub uninterp spec fn w_deleted(&self, fd: int) -> bool;
+        /// delete(fd) has been called (whatever it returned)
+        pub uninterp spec fn w_delete_called(&self, fd: int) -> bool;
+        pub uninterp spec fn spec_supports_level(&self) -> bool;
+        /// ASSUMED: a fixed capability of the platform's poller
+        #[verifier::external_body]
+        pub fn supports_level(&self) -> (r: bool) ensures r == self.spec_supports_level(), { unimplemented!() }
+        /// ASSUMED: adds the source to the kernel's interest list; may fail. No visible state (DESIGN 1.4).
+        #[verifier::external_body]
+        pub unsafe fn add_with_mode(&self, source: std::os::unix::io::RawFd, interest: Event, mode: PollMode) -> (r: std::io::Result<()>)
+            requires self.may_add(source as int, interest, mode),
+            ensures r is Ok ==> self.w_added(source as int, interest, mode),
+        { unimplemented!() }
+        /// ASSUMED: replaces interest/mode/key of a registered source; may fail.
+        #[verifier::external_body]
+        pub fn modify_with_mode<S: std::os::unix::io::AsFd>(&self, source: S, interest: Event, mode: PollMode) -> (r: std::io::Result<()>)
+            requires self.may_modify(fd_raw(&source), interest, mode),
+            ensures r is Ok ==> self.w_modified(fd_raw(&source), interest, mode),
+        { unimplemented!() }
         /// ASSUMED: removes the source from the kernel's interest list; may fail. No visible state (DESIGN 1.4).
         #[verifier::external_body]
-        pub fn delete(&self, source: impl std::os::unix::io::AsFd) -> (r: std::io::Result<()>) { unimplemented!() }
+        pub fn delete<S: std::os::unix::io::AsFd>(&self, source: S) -> (r: std::io::Result<()>)
+            ensures r is Ok ==> self.w_deleted(fd_raw(&source)), self.w_delete_called(fd_raw(&source)),
+        { unimplemented!() }
     }
     #[derive(Clone, Copy)]
     pub enum PollMode { Oneshot, Level, Edge, EdgeOneshot }
